@@ -23,7 +23,7 @@ type c10scn struct {
 	mech      string // dedup | autoname
 	lenRel    string // shorter | equal | longer (new name relative to the old one)
 	unfmt     bool   // files are not gofmt-formatted
-	comments  string // none | before | inside | after | doc
+	comments  string // none | before (line above) | before-name (block comments around the name) | inside | after | doc
 	layout    string // single | split-late | split-early
 	nRenames  int
 	bothFlags bool
@@ -68,6 +68,8 @@ func (s c10scn) fn2(fname, name string, tn int, nested bool) string {
 			b.WriteString("      // a comment before the call\n")
 		}
 		switch s.comments {
+		case "before-name":
+			fmt.Fprintf(&b, "    _ =   /* c1 */ %s /* c2 */ (%s,%s)\n", name, arg0, arg)
 		case "inside":
 			fmt.Fprintf(&b, "    _ =   %s( /* first */ %s,%s )\n", name, arg0, arg)
 		case "after":
@@ -82,6 +84,8 @@ func (s c10scn) fn2(fname, name string, tn int, nested bool) string {
 			b.WriteString("\t// a comment before the call\n")
 		}
 		switch s.comments {
+		case "before-name":
+			fmt.Fprintf(&b, "\t_ = /* c1 */ %s /* c2 */ (%s, %s)\n", name, arg0, arg)
 		case "inside":
 			fmt.Fprintf(&b, "\t_ = %s( /* first */ %s, %s)\n", name, arg0, arg)
 		case "after":
@@ -191,7 +195,7 @@ func c10Scenarios() []c10scn {
 	for _, mech := range []string{"dedup", "autoname"} {
 		for _, lr := range []string{"shorter", "equal", "longer"} {
 			for _, unfmt := range []bool{false, true} {
-				for _, cm := range []string{"none", "before", "inside", "after", "doc"} {
+				for _, cm := range []string{"none", "before", "before-name", "inside", "after", "doc"} {
 					for _, lay := range []string{"single", "split-late", "split-early"} {
 						for n := 1; n <= 2; n++ {
 							for _, both := range []bool{false, true} {
@@ -431,6 +435,14 @@ func checkC10(tier string) {
 			fs = append(fs, fscn{"duplicate-then-refused-call|" + nm[0] + "+" + nm[1], pkgFiles{nm[0]: "package m\n\n" + types + duplicate, nm[1]: bad}})
 			fs = append(fs, fscn{"refused-call-then-conflict|" + nm[0] + "+" + nm[1], pkgFiles{nm[0]: "package m\n\n" + types + "func bad(p, q *T1) int { return deriveCompare(p, *q) }\n", nm[1]: "package m\n\n" + conflict}})
 		}
+		// a syntax error after / before the renamed call in the same file, and in another file
+		syn := "\nfunc broken( {\n}\n\nfunc after() int { return 1 }\n"
+		for _, nm := range [][2]string{{"a.go", "b.go"}, {"main.go", "types.go"}} {
+			fs = append(fs, fscn{"conflict-and-syntax-error-in-one-file|" + nm[0], pkgFiles{nm[0]: "package m\n\n" + types + conflict + syn}})
+			fs = append(fs, fscn{"duplicate-and-syntax-error-in-one-file|" + nm[0], pkgFiles{nm[0]: "package m\n\n" + types + duplicate + syn}})
+			fs = append(fs, fscn{"syntax-error-before-conflict-in-one-file|" + nm[0], pkgFiles{nm[0]: "package m\n\n" + types + "func early() int { return 1 + }\n\n" + conflict}})
+			fs = append(fs, fscn{"conflict-and-syntax-error-in-another-file|" + nm[0] + "+" + nm[1], pkgFiles{nm[0]: "package m\n\n" + types + conflict, nm[1]: "package m\n" + syn}})
+		}
 		flagSets := [][]string{{"-autoname"}, {"-dedup"}, {"-autoname", "-dedup"}}
 		parDo(len(fs)*len(flagSets)*2, func(i int) {
 			sc, flags, pregen := fs[i/(len(flagSets)*2)], flagSets[(i/2)%len(flagSets)], i%2 == 1
@@ -469,7 +481,13 @@ func checkC10(tier string) {
 				rep.Violation(clause+"|"+sc.name+"|"+strings.Join(flags, "")+fmt.Sprintf("|pregen=%v", pregen), fmt.Sprintf("%s: %s with %v: %s (goderive exit %d: %s)", clause, sc.name, flags, what, r.Exit, head(firstErrorLine(r.Stderr), 160)),
 					map[string]interface{}{"engine": "e2", "files": sc.files, "flags": flags, "args": []string{"."}})
 			}
-			if r.Exit == 0 {
+			hasRefused := false
+			for _, c := range sc.files {
+				if strings.Contains(c, "deriveCompare(p, *q)") {
+					hasRefused = true
+				}
+			}
+			if r.Exit == 0 && hasRefused {
 				viol("refused-call-accepted", "the package holds deriveCompare(p, *q) and must be refused")
 			}
 			if d := snapDiff(before, after, func(rel string) bool {
@@ -490,7 +508,11 @@ func checkC10(tier string) {
 					viol("file-missing", name)
 					continue
 				}
-				if _, problem := checkRewrite(name, []byte(start[name]), now, logged); problem != "" && !strings.HasPrefix(problem, "harness:") {
+				_, problem := checkRewrite(name, []byte(start[name]), now, logged)
+				if strings.HasPrefix(problem, "harness: original does not parse") {
+					// a file goderive could not parse completely must be left alone
+					viol("rewrote-a-file-with-syntax-errors", name+": "+firstDiff([]byte(start[name]), now))
+				} else if problem != "" && !strings.HasPrefix(problem, "harness:") {
 					viol("bad-rewrite", name+": "+problem)
 				}
 			}
@@ -507,7 +529,7 @@ func checkC10(tier string) {
 	rep.Cov["call_sites_renamed"] = renamedTotal
 	rep.Cov["files_rewritten_and_verified"] = rewrittenFiles
 	rep.Cov["files_verified_untouched"] = untouchedFiles
-	rep.Cov["rule"] = "state = one package (and flag set); part 1: every package of the C09 corpus (successes, generator errors, registration errors, load errors, multi-package invocations) run without flags, whole-tree snapshot (names, modes, SHA-256) before/after, only derived.gen.go may differ; part 2: every rename scenario of the product {dedup, autoname} x {new name shorter, equal, longer} x {gofmt-ed, not} x {no comments, before, inside, after the call, doc comments} x {one file, renamed call in a later file plus a file without calls, renamed call in the first file followed by unformatted files} x {1, 2 renamed call sites} x {mechanism's flag, both flags} x {renamed in the first pass, renamed in a second pass after a reload because its argument is itself a derive call} x {files sorting before, after derived.gen.go} x {no derived.gen.go yet, one left by a run made before the calls to rename were added}; plus packages where a file with a renamed call is followed by a file whose call is refused (the failing run may leave nothing but rewritten files behind); oracle: files without a renamed call byte-identical, each rewritten file == go/format(original with exactly the renamed call identifiers substituted, positions from an independent parse, new names taken from goderive's own log), result type-checks, new names exist in derived.gen.go; non-trivial = rename scenarios + failing no-flag runs"
+	rep.Cov["rule"] = "state = one package (and flag set); part 1: every package of the C09 corpus (successes, generator errors, registration errors, load errors, multi-package invocations) run without flags, whole-tree snapshot (names, modes, SHA-256) before/after, only derived.gen.go may differ; part 2: every rename scenario of the product {dedup, autoname} x {new name shorter, equal, longer} x {gofmt-ed, not} x {no comments, on the line before, block comments directly before and after the name, inside, after the call, doc comments} x {one file, renamed call in a later file plus a file without calls, renamed call in the first file followed by unformatted files} x {1, 2 renamed call sites} x {mechanism's flag, both flags} x {renamed in the first pass, renamed in a second pass after a reload because its argument is itself a derive call} x {files sorting before, after derived.gen.go} x {no derived.gen.go yet, one left by a run made before the calls to rename were added}; plus packages where a file with a renamed call is followed by a file whose call is refused, or where the file with the call to rename (or another file) has a syntax error (the failing run may leave nothing but rewritten files behind); oracle: files without a renamed call byte-identical, each rewritten file == go/format(original with exactly the renamed call identifiers substituted, positions from an independent parse, new names taken from goderive's own log), result type-checks, new names exist in derived.gen.go; non-trivial = rename scenarios + failing no-flag runs"
 	rep.Cov["bound"] = fmt.Sprintf("%d no-flag packages + %d rename scenarios", len(progs), len(scns))
 	rep.Cov["exhaustive"] = true
 	rep.Sample(map[string]interface{}{"scenario": scns[len(scns)/2].label(), "files": scns[len(scns)/2].files()})
